@@ -24,7 +24,7 @@ ASSUMPTIONS = [
     "the continuum of real vectors is represented by a 6-value alphabet spanning 12 orders of magnitude, both signs and "
     "zero; statistics are symmetric polynomial functions of the data, so lengths <= 5 exercise every code path (the code "
     "has no length-dependent branch beyond N - ddof)",
-    "tolerances: 1e-9 scaled by the conditioning of the problem - kappa = max|x|/sd(x) for standardisation (<= ~10 on this "
+    "tolerances: 1e-9 scaled by the conditioning of the problem - kappa = max|x|/sd(x) for standardisation (<= 3.75 on this "
     "alphabet) and, for poly, the growth factor K_k = prod_j max(1, spread * ||p_(j-1)|| / ||p_j||) of the documented "
     "three-term recurrence computed on the exact reference (tolerance max(1e-9, 64 u K_k); measured error <= 5 u K_k); "
     "poly cases whose tolerance would exceed 1e-3 (float64 cannot separate 0 from 1e-6 next to 1e6) are counted as "
@@ -240,7 +240,7 @@ def drv_scale(c, ctx, col):
             "second application to the training data with the recorded state differs from the first", first=got.tolist(), second=again.tolist())
     except Exception as e:  # noqa
         rep(False, "raises", "second application raised %s: %s" % (type(e).__name__, str(e)[:120]))
-    for new in ctx["followups"]:
+    for new in (ctx["followups"] if len(x) <= ctx.get("full_followups_upto", 99) else ctx["followups_short"]):
         try:
             g2 = to_vec(fn(as_container(new, kind), **kw, _state=st))
         except Exception as e:  # noqa
@@ -391,7 +391,7 @@ def drv_poly(c, ctx, col):
     if distinct < degree + 1:
         raise Skip()      # needs degree+1 distinct points
     pos = c.upto(len(x) + 1)
-    kind = c.pick(ctx["containers"])
+    kind = c.pick(ctx["containers"] if len(x) <= ctx.get("containers_upto", 99) else ctx["containers"][:1])
     xn = insert_null(x, pos)
     poly = transforms()["poly"]
     where = "poly(x, %d) x=%s (%s)" % (degree, vec_repr(xn), kind)
@@ -597,20 +597,30 @@ def subchecks(tier, seed):
     quick = tier == "quick"
     L = 4 if quick else 5
     Lf = 3 if quick else 4
-    fu = followup_vectors(ALPHA, "ring" if quick else "all")
+    fu_ring = followup_vectors(ALPHA, "ring")
+    fu_all = followup_vectors(ALPHA, "all")
     fu_poly = [[a] for a in ALPHA] + [ALPHA + [NAN], [NAN, 1.0]]
-    conts = ["ndarray", "series"] if quick else ["ndarray", "series", "sparse"]
-    outs = ["pandas"] if quick else ["pandas", "sparse", "numpy"]
+    outs = ["pandas"] if quick else ["pandas", "sparse"]
     alpha = [fmt(a) for a in ALPHA]
+    cfgs = [cfg_expr(c_) for c_ in SCALE_CFGS]
+    fu_txt = ("every vector of length 1 and a ring of 6 pairs over the alphabet + the whole alphabet" if quick else
+              "every vector of length 1..2 over the alphabet + the whole alphabet (training length <= 3); singletons, 6 pairs and "
+              "the whole alphabet for longer training vectors")
     subs = [
-        Sub("scale-direct", drv_scale, {"L": L, "containers": conts, "followups": fu}, shard_depth=3,
-            bounds={"alphabet": alpha, "length": "2..%d" % L, "configurations": [cfg_expr(c_) for c_ in SCALE_CFGS], "containers": conts,
-                    "followup_vectors": "every vector of length 1%s over the alphabet + the whole alphabet" % (", ring of 6 pairs" if quick else "..2")}),
+        Sub("scale-direct", drv_scale, {"L": L, "containers": ["ndarray", "series"], "followups": fu_ring if quick else fu_all,
+                                        "followups_short": fu_ring, "full_followups_upto": 3}, shard_depth=3,
+            bounds={"alphabet": alpha, "length": "2..%d" % L, "configurations": cfgs, "containers": ["ndarray", "series"],
+                    "followup_vectors": fu_txt}),
+        Sub("scale-sparse-input", drv_scale, {"L": 3, "containers": ["sparse"], "followups": fu_ring}, shard_depth=3,
+            bounds={"alphabet": alpha, "length": "2..3", "configurations": cfgs, "containers": ["one-column csc matrix"],
+                    "followup_vectors": "singletons, 6 pairs, the whole alphabet"}),
         Sub("scale-formula", drv_scale_formula, {"L": Lf, "outputs": outs, "followups": [list(ALPHA), [ALPHA[4]], [ALPHA[5], ALPHA[0]]]}, shard_depth=3,
             bounds={"alphabet": alpha, "length": "2..%d" % Lf, "configurations": "all %d in one formula" % len(SCALE_CFGS), "outputs": outs,
                     "followup_frames": [alpha, [alpha[4]], [alpha[5], alpha[0]]]}),
-        Sub("poly-direct", drv_poly, {"L": L, "containers": ["ndarray"] if quick else ["ndarray", "series"], "followups": fu_poly}, shard_depth=3,
+        Sub("poly-direct", drv_poly, {"L": L, "containers": ["ndarray"] if quick else ["ndarray", "series"], "containers_upto": 4,
+                                      "followups": fu_poly}, shard_depth=3,
             bounds={"alphabet": alpha, "length": "2..%d" % L, "degree": "1..3", "null": "none or one null inserted at every position",
+                    "containers": "ndarray" if quick else "ndarray; also pandas Series for length <= 4",
                     "followup_vectors": "each alphabet value, the whole alphabet + null, [null, 1]"}),
         Sub("poly-formula", drv_poly_formula, {"L": Lf, "outputs": outs}, shard_depth=3,
             bounds={"alphabet": alpha, "length": "2..%d" % Lf, "degree": "all feasible degrees 1..3 in one formula", "null": "none or every position",
@@ -618,7 +628,7 @@ def subchecks(tier, seed):
         Sub("elementwise-direct", drv_elementwise, {"L": 2 if quick else 3}, shard_depth=2,
             bounds={"alphabet": [fmt(a) for a in EALPHA], "length": "1..%d" % (2 if quick else 3), "functions": sorted(N.ELEMENTWISE),
                     "containers": ["ndarray", "series", "scalar"]}),
-        Sub("elementwise-formula", drv_elementwise_formula, {"L": 2 if quick else 3, "outputs": outs}, shard_depth=2,
-            bounds={"alphabet": [fmt(a) for a in EALPHA], "length": "1..%d" % (2 if quick else 3), "outputs": outs}),
+        Sub("elementwise-formula", drv_elementwise_formula, {"L": 2 if quick else 3, "outputs": ["pandas", "sparse", "numpy"]}, shard_depth=2,
+            bounds={"alphabet": [fmt(a) for a in EALPHA], "length": "1..%d" % (2 if quick else 3), "outputs": ["pandas", "sparse", "numpy"]}),
     ]
     return subs
